@@ -126,6 +126,8 @@ pub fn apply(op: &Op, sc: &Scenario, req: &[u8], prev_honest: &[u8]) -> Vec<u8> 
         Op::SetField(f, var) => {
             let mut p: Parts = honest.clone();
             match (*f, *var) {
+                // not a tamper: the classic reply in its original layout, without the NONC echo
+                ("NONC", "omit") => p.omit_nonc = true,
                 ("SIG", "zero") => p.sig = vec![0; 64],
                 ("SIG", "random") => p.sig = Rng(77).bytes(64),
                 ("SIG", "over-other-srep") => {
@@ -278,6 +280,19 @@ pub fn apply(op: &Op, sc: &Scenario, req: &[u8], prev_honest: &[u8]) -> Vec<u8> 
                     p.dele.set("PUBK", crypto::non_point_key().to_vec());
                     p.sign_dele(v, &id.lt_seed);
                     p.sig = vec![0u8; 64];
+                }
+                // properly signed SREP whose ROOT is the all-zero node, with a PATH that is not a whole
+                // number of nodes (or absent): nothing the client computes may equal it
+                "root-zero-path-ragged-4" | "root-zero-path-half-node" | "root-zero-path-node-plus-1" | "root-zero-path-empty" => {
+                    p.srep.set("ROOT", vec![0u8; w]);
+                    p.sign_srep(v, &id.online_seed);
+                    p.path = match *what {
+                        "root-zero-path-ragged-4" => vec![0u8; 4],
+                        "root-zero-path-half-node" => vec![0u8; w / 2],
+                        "root-zero-path-node-plus-1" => vec![0u8; w + 1],
+                        _ => vec![],
+                    };
+                    p.indx = vec![0u8; 4];
                 }
                 // properly signed SREP whose ROOT is not a full Merkle node: nothing can bind to it
                 "root-empty" | "root-prefix-4" | "root-half" | "root-extended" => {
@@ -465,7 +480,7 @@ pub fn alphabet(v: Version, honest_len: usize, tier: Tier) -> Vec<Op> {
             ops.push(Op::Shadow(f, c));
         }
     }
-    for r in ["all-by-s2", "srep-by-s2-online", "dele-by-s2", "window-before", "window-after", "window-empty", "window-inverted-below", "window-inverted-above", "window-inverted-extremes", "root-of-other-batch", "root-empty", "root-prefix-4", "root-half", "root-extended", "forged-srep-with-certsig", "forged-dele-keeping-certsig", "pubk-non-point-neutral-sig", "pubk-non-point-zero-sig"] {
+    for r in ["all-by-s2", "srep-by-s2-online", "dele-by-s2", "window-before", "window-after", "window-empty", "window-inverted-below", "window-inverted-above", "window-inverted-extremes", "root-of-other-batch", "root-empty", "root-prefix-4", "root-half", "root-extended", "forged-srep-with-certsig", "forged-dele-keeping-certsig", "pubk-non-point-neutral-sig", "pubk-non-point-zero-sig", "root-zero-path-ragged-4", "root-zero-path-half-node", "root-zero-path-node-plus-1", "root-zero-path-empty"] {
         ops.push(Op::Resign(r));
     }
     for c in ["dele-ctx", "tree-profile", "whole-reply", "framing"] {
@@ -1008,15 +1023,19 @@ pub fn run_c03(ctx: &Ctx) -> Result<(), String> {
                     if ctx.tier == Tier::Quick && key == Some(true) && (si + mi) % 3 != 0 {
                         continue;
                     }
-                    cases.push((v, n, i, m, key, (si + mi) % 4 == 0));
+                    cases.push((v, n, i, m, key, (si + mi) % 4 == 0, false));
+                    // the classic reply as the original protocol lays it out (no NONC echo)
+                    if v == Version::Classic && (si + mi) % 2 == 0 {
+                        cases.push((v, n, i, m, key, false, true));
+                    }
                 }
             }
         }
     }
     par_for(cases.len(), 4, |k, _| {
-        let (v, n, i, (secs, sub), key, js) = cases[k];
+        let (v, n, i, (secs, sub), key, js, no_echo) = cases[k];
         let sc = Scenario { v, n, i, stamp: Stamp::at(v, secs, sub) };
-        let out = match execute(&sc, &Op::Honest, key, js, &[]) {
+        let out = match execute(&sc, &if no_echo { Op::SetField("NONC", "omit") } else { Op::Honest }, key, js, &[]) {
             Ok(o) => o,
             Err(e) => {
                 *failed.lock().unwrap() = Some(e);
@@ -1028,7 +1047,7 @@ pub fn run_c03(ctx: &Ctx) -> Result<(), String> {
             Version::Classic => (secs, (sub * 1000) as u32),
             Version::Ietf13 => (secs, 0),
         };
-        let detail = |msg: String| json!({"kind":"honest","peer":"reference-responder","version":v.name(),"n":n,"i":i,"midpoint":[secs, sub],"key":format!("{:?}", key),"json":js,"message":msg,
+        let detail = |msg: String| json!({"kind":"honest","peer":"reference-responder","version":v.name(),"n":n,"i":i,"midpoint":[secs, sub],"key":format!("{:?}", key),"json":js,"reply_without_nonc_echo":no_echo,"message":msg,
             "exit":out.run.exit.code,"stdout":out.run.exit.stdout,"stderr_first":out.run.exit.stderr.lines().take(3).collect::<Vec<_>>(),"reply":hex_trunc(&out.reply, 2048),"request":hex_trunc(&out.run.requests[0].0, 2048)});
         let cls;
         if !out.accepted {
@@ -1176,7 +1195,7 @@ pub fn run_c03(ctx: &Ctx) -> Result<(), String> {
     ctx.cov("outcome_classes", json!(*classes.lock().unwrap()));
     ctx.cov("exhaustive", json!(true));
     ctx.cov("bound", json!({"batch_shapes": shapes.len(), "midpoints": mids.len(), "real_server_runs": real_n}));
-    ctx.cov("rule", json!("each case = one execution of the real client against (1) the reference responder placing the client's request at position i of a batch of n (quick: all i for n in {1,2,3,5,8}, i in {0,31,63} for 64; thorough: all 2080 shapes n<=64) with a signed midpoint from {0, 1us, 1.999999s, 2^31-1, 2^31, now, year 2200, 9999-12-31T23:59:59.999999}, version x key option {none, hex, base64} x plain/JSON; the key spelled as lower/upper/mixed-case hex and base64; (2) the real server binary with -n k (batch sizes 64 and 3, 1 and 4 workers), and through a forwarding proxy that queues the client's requests on a stopped (SIGSTOP/SIGCONT) one-worker server together with a request of the other protocol and/or a junk datagram in front of, between or behind them, so that they share one batch. Oracle: exit 0, printed time == signed midpoint converted from the protocol unit (independent calendar conversion for the default format), verified=Yes iff a key was given, merkle_index == i. Local time: the client run under TZ in {UTC, JST-9, EST5, <+0545>-5:45, Asia/Tokyo, America/New_York} with and without -z at instants either side of the 2026 DST changes (including instants whose UTC calendar fields fall into New York's skipped and repeated hour): %s == midpoint and the calendar fields == midpoint + zone offset."));
+    ctx.cov("rule", json!("each case = one execution of the real client against (1) the reference responder placing the client's request at position i of a batch of n (quick: all i for n in {1,2,3,5,8}, i in {0,31,63} for 64; thorough: all 2080 shapes n<=64) with a signed midpoint from {0, 1us, 1.999999s, 2^31-1, 2^31, now, year 2200, 9999-12-31T23:59:59.999999}, version x key option {none, hex, base64} x plain/JSON; classic replies also in the original layout without the NONC echo; the key spelled as lower/upper/mixed-case hex and base64; (2) the real server binary with -n k (batch sizes 64 and 3, 1 and 4 workers), and through a forwarding proxy that queues the client's requests on a stopped (SIGSTOP/SIGCONT) one-worker server together with a request of the other protocol and/or a junk datagram in front of, between or behind them, so that they share one batch. Oracle: exit 0, printed time == signed midpoint converted from the protocol unit (independent calendar conversion for the default format), verified=Yes iff a key was given, merkle_index == i. Local time: the client run under TZ in {UTC, JST-9, EST5, <+0545>-5:45, Asia/Tokyo, America/New_York} with and without -z at instants either side of the 2026 DST changes (including instants whose UTC calendar fields fall into New York's skipped and repeated hour): %s == midpoint and the calendar fields == midpoint + zone offset."));
     ctx.sample(json!({"peer":"reference-responder","version":"ietf13","n":5,"i":3,"midpoint":[2147483648u64, 500000],"key":"hex"}));
     ctx.sample(json!({"peer":"real-server","version":"classic","n":8}));
     Ok(())
@@ -1211,7 +1230,7 @@ pub fn replay_case_c03(c: &Value) -> Result<Option<String>, String> {
         _ => None,
     };
     let sc = Scenario { v, n, i, stamp: Stamp::at(v, secs, sub) };
-    let out = execute(&sc, &Op::Honest, key, false, &[])?;
+    let out = execute(&sc, &if c["reply_without_nonc_echo"].as_bool().unwrap_or(false) { Op::SetField("NONC", "omit") } else { Op::Honest }, key, false, &[])?;
     Ok(if out.accepted { None } else { Some(format!("client rejected an honest reply: {}", out.run.exit.stderr.lines().next().unwrap_or(""))) })
 }
 
